@@ -145,6 +145,46 @@ impl<'a, const PT: u8, const MIN: usize> TryFrom<&'a Packet<'a>> for Custom<'a, 
     }
 }
 
+/// `(unit PT)`: a zero-sized third-party writer (a field-less unit struct): always 8 bytes, the
+/// header of `Custom<PT, 8>` with count 0 and no padding, followed by four zero bytes.
+#[derive(Debug)]
+pub struct UnitPkt<const PT: u8>;
+
+impl<const PT: u8> RtcpPacketWriter for UnitPkt<PT> {
+    fn calculate_size(&self) -> Result<usize, RtcpWriteError> {
+        Ok(8)
+    }
+
+    fn write_into_unchecked(&self, buf: &mut [u8]) -> usize {
+        writer::write_header_unchecked::<Custom<'static, PT, 8>>(0, 0, buf);
+        buf[4..8].fill(0);
+        8
+    }
+
+    fn get_padding(&self) -> Option<u8> {
+        None
+    }
+}
+
+/// Dispatches from a runtime `pt` of the grid to `$f::<PT, $generics..>($args..)`.
+#[macro_export]
+macro_rules! with_grid_pt {
+    ($pt:expr, $f:ident, [$($g:ty),*], ($($a:expr),*)) => {
+        match $pt {
+            0 => $f::<0, $($g),*>($($a),*),
+            192 => $f::<192, $($g),*>($($a),*),
+            199 => $f::<199, $($g),*>($($a),*),
+            200 => $f::<200, $($g),*>($($a),*),
+            204 => $f::<204, $($g),*>($($a),*),
+            207 => $f::<207, $($g),*>($($a),*),
+            208 => $f::<208, $($g),*>($($a),*),
+            242 => $f::<242, $($g),*>($($a),*),
+            255 => $f::<255, $($g),*>($($a),*),
+            _ => unreachable!("custom grid PT"),
+        }
+    };
+}
+
 /// Dispatches from a runtime `(pt, min)` of the grid to `$f::<PT, MIN, $generics..>($args..)`.
 #[macro_export]
 macro_rules! with_grid_min {
